@@ -1793,6 +1793,7 @@ pub(crate) struct SelectionVector {
 }
 
 impl SelectionVector {
+    #[allow(dead_code)] // Used by tests for SIMD filtering verification
     pub fn all(row_count: usize) -> Self {
         let words = simd::bitmap_words(row_count);
         let mut bitmap = vec![!0u64; words];
@@ -6299,12 +6300,9 @@ impl RelationalEngine {
         condition: &Condition,
     ) -> Option<(SelectionVector, usize)> {
         match condition {
-            Condition::True => {
-                // Get row count from slab
-                let row_count = self.slab().row_count(table).ok()?;
-                Some((SelectionVector::all(row_count), row_count))
-            },
-
+            // `Condition::True` nested in AND/OR is left to the row path: the only row count
+            // available here is the number of live rows, not the number of slots the other
+            // operand's bitmap covers.
             Condition::Eq(col, Value::Int(val)) => {
                 let (values, alive_words, null_words) =
                     self.slab().get_int_column(table, col).ok()?;
